@@ -58,7 +58,7 @@ pub fn until_next_unindented(input: &str, at_least_until: usize, fallback_len: u
     }
 
     // No match found, use fallback
-    input[..ceil_char_boundary(fallback_len)].trim()
+    input[..ceil_char_boundary(fallback_len)].trim_end()
 }
 
 pub fn hex_to_bools(c: char) -> [bool; 4] {
